@@ -71,7 +71,7 @@ def info(tier):
         "%d directed handle-retrieval recipes on solved models with pairwise distinct optimal values, for 3 solver "
         "methods; distinct = canonical (problem, method) hashes" % len(HANDLES),
         "required_cells": ["keys", "objective:optimal", "sense:min", "sense:max", "kind:constant-objective", "kind:objective-subset", "kind:symmetric-matrix-objective",
-                           "kind:lp", "kind:nlp", "history:flip-sense-same-object", "stub:fun-consistent", "stub:fun-stale-iterate", "stub:fun-huge", "stub:fun-nan"] + [f"handle:{h}" for h, _, _ in HANDLES] + ["handle:by-name", "handle:get-default"],
+                           "kind:lp", "kind:nlp", "history:flip-sense-same-object", "history:parameter-set-then-resolve", "history:parameter-set-then-resolve:deep-objective", "stub:fun-consistent", "stub:fun-stale-iterate", "stub:fun-huge", "stub:fun-nan"] + [f"handle:{h}" for h, _, _ in HANDLES] + ["handle:by-name", "handle:get-default"],
         "assumptions": ["objective compared at rtol 1e-7 (values are float64 round-trips of the solver's point)"],
     }
 
@@ -272,9 +272,63 @@ def workload_stub(ctx, rec):
         seams.uninstall()
 
 
+def run_parametric_history(rec, rng, method, deep):
+    """solve ; Parameter.set() ; solve on one problem object (objective accumulated over 400+ terms when `deep`): the reported objective
+    value must be the objective at the returned values *with the parameter values current at that solve*."""
+    import copy
+
+    x = ["vec", "x"]
+    decls = [{"k": "vec", "name": "x", "n": 3, "lb": -4.0, "ub": 6.0}, {"k": "par", "name": "price", "val": 2.0}, {"k": "par", "name": "q", "val": 0.5}]
+
+    def sq(e):
+        return ["bin", "**", e, ["raw", 2, "int"]]
+
+    obj = ["bin", "*", ["par", "price"], sq(["bin", "-", ["el", x, 0], ["par", "q"]])]
+    nterms = rng.choice([405, 430]) if deep else 6
+    for i in range(1, nterms):
+        v = ["el", x, i % 3]
+        t = ["bin", "*", ["raw", 0.01, "float"], sq(["bin", "-", v, ["raw", 0.25 * (i % 7), "float"]])]
+        if i % 60 == 11:
+            t = ["bin", "*", ["par", "price"], ["bin", "*", ["raw", 0.01, "float"], v]]
+        obj = ["bin", "+", obj, t]
+    sense = rng.choice(["min", "max"])
+    prob = {"decls": decls, "objective": obj if sense == "min" else ["neg", obj], "sense": sense,
+            "constraints": [] if method == "L-BFGS-B" else [["rel", ">=", ["sum", x], ["par", "q"], "direct"]]}
+    rec.case({"parametric-history": [nterms, sense], "m": method})
+    try:
+        b = B.Builder(decls)
+        P = b.problem(prob)
+    except Exception as ex:
+        rec.events["unsupported-build:" + type(ex).__name__] += 1
+        return
+    cur = {"price": 2.0, "q": 0.5}
+    for step, upd in enumerate([None, {"price": 5.0, "q": -1.0}, {"price": 0.5, "q": 2.0}]):
+        if upd:
+            for k_, v_ in upd.items():
+                b.params[k_].set(v_)
+            cur = dict(upd)
+        now = copy.deepcopy(prob)
+        for d in now["decls"]:
+            if d["k"] == "par":
+                d["val"] = cur[d["name"]]
+        try:
+            with warnings.catch_warnings():
+                warnings.simplefilter("ignore")
+                sol = P.solve(method=method)
+        except Exception as ex:
+            rec.events[f"solve-raises:{type(ex).__name__}"] += 1
+            return
+        rec.cmp(1, "history:parameter-set-then-resolve" + (":deep-objective" if deep else ""))
+        show = {"objective": f"price*(x0-q)^2 + {nterms - 1} accumulated terms", "sense": sense, "method": method, "parameters": dict(cur), "solve": step + 1}
+        SC.consistency(now, P, sol, rec, lambda what, **kw: rec.violation(("after-set:" if step else "") + what, {"prob": {"decls": now["decls"], "sense": sense, "nterms": nterms}, "method": method, "show": show, **kw}))
+
+
 def run(ctx, rec):
     rng = ctx.rng
     workload_stub(ctx, rec)
+    for i, (m, deep) in enumerate([(m_, d_) for m_ in ("auto", "SLSQP", "L-BFGS-B", "trust-constr") for d_ in (False, True)]):
+        if ctx.mine(i + 5):
+            run_parametric_history(rec, rng, m, deep)
     for i, m in enumerate(["SLSQP", "L-BFGS-B", "trust-constr", "auto"]):
         if ctx.mine(i):
             run_handles(rec, rng, m)
